@@ -1,6 +1,7 @@
+\* quick-tier configuration "all3x2" with emission (harness/p_specreg.py generates the configurations it runs)
 SPECIFICATION Spec
 CONSTANTS
-  NCtx = 3
+  NCtx = 2
   MaxImpl = 3
   MaxAny = 2
   KindSet = {"req", "any", "via", "viaimpl"}
